@@ -553,6 +553,14 @@ func class(cs []*ctxSpec, sni string, protos []string) string {
 			break
 		}
 	}
+	for _, c := range cs {
+		for _, s := range c.sans {
+			if s == "" {
+				fl = append(fl, "emptysan")
+				break
+			}
+		}
+	}
 	up := false
 	post := false
 	for i, c := range cs {
@@ -1145,6 +1153,10 @@ func Run(c *hx.Ctx) {
 	defer l.ln.Close()
 
 	only := os.Getenv("C13_ONLY") // development aid: run a single family of kinds
+	if only == "lb" {
+		runLabelBoundaries(c, &gen{r: c.Rng.Fork().Fork().Fork().Fork().Fork(), c: c}, l, c.N(250, 1500))
+		return
+	}
 	if only == "" || only == "res" {
 		runResume(c, l, c.N(1, 3))
 	}
@@ -1171,6 +1183,14 @@ func Run(c *hx.Ctx) {
 			runSdsuRandom(c, gs, l)
 		}
 	}
+	if only == "" || only == "shr" {
+		// sds contexts sharing secret names (share.go); own generator stream
+		gh := &gen{r: c.Rng.Fork().Fork().Fork().Fork().Fork().Fork(), c: c}
+		runShrFixed(c, l)
+		for i := 0; i < c.N(600, 2500); i++ {
+			runShrRandom(c, gh, l)
+		}
+	}
 	if only != "" {
 		if only == "res" {
 			runResumeLate(c, l)
@@ -1179,6 +1199,8 @@ func Run(c *hx.Ctx) {
 	}
 	runPolicyTables(c)
 	runBoundaries(c, l)
+	// SNI strings on every label boundary of a stored name (labels.go); own generator stream
+	runLabelBoundaries(c, &gen{r: c.Rng.Fork().Fork().Fork().Fork().Fork(), c: c}, l, c.N(250, 1500))
 	runInspector(c, g, l)
 	runTrustServer(c, g, l, c.N(2, 6))
 	runTrustClient(c, g, l)
